@@ -4,5 +4,5 @@ patch=$1; shift
 td=$(mktemp -d /tmp/hannibal-try-XXXX)
 rsync -a --exclude target --exclude .git /repo/ $td/r/
 ( cd $td/r && patch -p1 -s -i $patch ) || { echo PATCH-FAILED; rm -rf $td; exit 3; }
-for p in "$@"; do /verif/check $p --repo $td/r --no-evidence 2>&1 | grep -E "^(VIOLATION|UNDECIDED|OK|KNOWN)" | cut -c1-330; done
+for p in "$@"; do /verif/check $p --repo $td/r --no-evidence --no-replay 2>&1 | grep -E "^(VIOLATION|UNDECIDED|OK|KNOWN)" | cut -c1-330; done
 rm -rf $td
